@@ -1300,7 +1300,10 @@ def covar_errors(params, data, errs, B, C=None):
             covar = np.transpose(J).dot(J)
             onesigma = np.sqrt(np.diag(inv(covar)))
         except (np.linalg.LinAlgError, ValueError) as _:
-            onesigma = [-2] * len(mask[0])
+            # one (undetermined) error per free parameter, not per pixel
+            nfree = np.count_nonzero(
+                [params[p].vary for p in params.keys()])
+            onesigma = [-2] * nfree
 
     # onesigma has one entry per free parameter, over all components
     j = 0
